@@ -53,6 +53,7 @@ func fatal2(format string, a ...any) {
 const goraceBase = "GORACE=suppress_equal_stacks=0 suppress_equal_addresses=0 history_size=5 exitcode=0"
 
 var scratch string
+var corpusFile string
 var keepScratch bool
 
 func cleanup() {
@@ -119,7 +120,7 @@ func runWorker(bin string, gomaxprocs int, raceLog string, args ...string) runOu
 	if raceLog == "" {
 		raceLog = filepath.Join(scratch, "racelog-worker")
 	}
-	cmd.Env = append(os.Environ(), goraceBase+" log_path="+raceLog, "VERIF_SAMPLES="+filepath.Join(repoDir, "testdata"))
+	cmd.Env = append(os.Environ(), goraceBase+" log_path="+raceLog, "VERIF_SAMPLES="+filepath.Join(repoDir, "testdata"), "VERIF_CORPUS="+corpusFile)
 	if gomaxprocs > 0 {
 		cmd.Env = append(cmd.Env, "GOMAXPROCS="+strconv.Itoa(gomaxprocs))
 	}
@@ -188,6 +189,13 @@ func main() {
 	for _, w := range info.Warnings {
 		fmt.Fprintln(os.Stderr, "WARNING:", w)
 	}
+	if c, warn := dumpCorpus(repoDir, verifDir, scratch); warn != "" {
+		fmt.Fprintln(os.Stderr, "WARNING:", warn)
+		info.Warnings = append(info.Warnings, warn)
+	} else {
+		info.Corpus = c
+	}
+	corpusFile = info.Corpus
 	realDir := filepath.Join(scratch, "real")
 	os.MkdirAll(realDir, 0o755)
 
@@ -340,6 +348,11 @@ func init() {
 		if err != nil {
 			fmt.Fprintln(os.Stderr, "HARNESS:", err)
 			os.Exit(2)
+		}
+		if c, warn := dumpCorpus(repoDir, verifDir, os.Args[2]); warn != "" {
+			fmt.Fprintln(os.Stderr, "WARNING:", warn)
+		} else {
+			fmt.Println("corpus:", c)
 		}
 		for _, race := range []bool{false, true} {
 			if _, err := buildSim(info, race); err != nil {
